@@ -191,3 +191,48 @@ def equal_under(ex, pc, a, b, depth=0) -> bool:
                     ok = ok and equal_under(ex, pc + [c], a, b, depth + 1)
             return ok
     return False
+
+
+_SPEC_CACHE = {}
+
+
+def spec_func(modname: str, fname: str, in_module: str = "pypika_tortoise.queries"):
+    """FuncInfo for a specification function of contracts/spec/<modname>.py, resolved in the name space of a
+    package module"""
+    import ast
+    import os
+    from ..front import FuncInfo
+    from ..oblig import VERIF
+    key = (modname, fname, in_module)
+    if key not in _SPEC_CACHE:
+        src = open(os.path.join(VERIF, "contracts", "spec", modname + ".py")).read()
+        tree = ast.parse(src)
+        node = [n for n in tree.body if isinstance(n, ast.FunctionDef) and n.name == fname][0]
+        mod = repo().modules[in_module]
+        _SPEC_CACHE[key] = FuncInfo(fname, f"spec.{modname}.{fname}", node, mod, None, [], "function")
+    return _SPEC_CACHE[key]
+
+
+def eval_spec(ex, state, modname, fname, args, in_module="pypika_tortoise.queries"):
+    """evaluate a specification function symbolically on `state`; returns the (merged) result value"""
+    fi = spec_func(modname, fname, in_module)
+    saved = ex.st
+    ex.st = state.snapshot()
+    saved_frames = ex.frames
+    ex.frames = []
+    saved_deadline = ex.deadline
+    ex.deadline = None
+    try:
+        outs = ex.explore(lambda: ex.call_body(fi, list(args), {}), start=ex.st)
+        vals = [(o.state.pc[len(state.pc):], o.value) for o in outs if o.status == "normal"]
+        if len(vals) == 1:
+            return vals[0][1]
+        cur = None
+        from ..smt import conj
+        for pc, v in reversed(vals):
+            cur = v if cur is None else ex.ite_val(conj(pc), v, cur)
+        return cur
+    finally:
+        ex.st = saved
+        ex.frames = saved_frames
+        ex.deadline = saved_deadline
